@@ -156,6 +156,20 @@ def clarkify(fl):
     return out
 
 
+def minidom_evicts_encoding(fl):
+    """Same recorded minidom limitation, structural consequence: the attribute it evicts is the `encoding` of a MathML annotation-xml
+    element (`encoding=text/html x:encoding=y`).  html5lib asks the tree NODE, not the token, whether annotation-xml is an HTML
+    integration point, so with the dom builder the content that follows is parsed as foreign content: the trees differ from there on.
+    True iff the (etree) flat tree has such an element."""
+    for r, m in zip(fl, minidom_colon_model(fl)):
+        if r[1] == "elem" and r[3] == "annotation-xml" and r[2] not in (None, HTML_NS):
+            enc = [a for a in r[4] if a[0] is None and a[1] == "encoding"]
+            enc_m = [a for a in m[4] if a[0] is None and a[1] == "encoding"]
+            if enc and enc != enc_m:
+                return True
+    return False
+
+
 def html_ns_none(fl, to=HTML_NS):
     """Map namespace None of elements to the HTML namespace (namespaceHTMLElements=False results)."""
     return [(r[0], "elem", r[2] if r[2] is not None else to, r[3], r[4]) if r[1] == "elem" else r for r in fl]
